@@ -30,3 +30,13 @@ KFN void k_cmp(unsigned ka, unsigned ra, unsigned long long ba, const char* sa, 
     out[2] = (*A == *B); out[3] = (*A != *B); out[4] = (*A < *B); out[5] = (*A <= *B); out[6] = (*A > *B); out[7] = (*A >= *B);
     out[8] = A->compare(*A2);   // an equal value built independently
 }
+
+// is<T>() / as<T>() on an integer-stored json: KIND 2 (int64) or 3 (uint64) is a constant per call site, T per entry point
+template <class T> static inline void isas(unsigned kind, unsigned long long bits, int* is, unsigned long long* as) {
+    RAWSTORE(json, a0); json* A = (json*)a0;
+    if (kind == 2) new (A) json((int64_t)bits); else new (A) json((uint64_t)bits);
+    *is = A->is<T>() ? 1 : 0;
+    *as = 0; if (*is) *as = (unsigned long long)(long long)A->as<T>();   // sign-extended for signed T, zero-extended for unsigned T
+}
+#define ISAS(NAME, T) KFN void k_isas_##NAME(unsigned kind, unsigned long long bits, int* is, unsigned long long* as) { if (kind == 2) isas<T>(2, bits, is, as); else isas<T>(3, bits, is, as); }
+ISAS(i8, int8_t) ISAS(i16, int16_t) ISAS(i32, int32_t) ISAS(i64, int64_t) ISAS(u8, uint8_t) ISAS(u16, uint16_t) ISAS(u32, uint32_t) ISAS(u64, uint64_t)
